@@ -14,6 +14,6 @@ PYTHONPATH="$wt" /venv/bin/python "$d/demo.py" >/tmp/trymut.mut.out 2>&1; m=$?
 t=$(PYTHONPATH="$wt" /venv/bin/python -m pytest -q -p no:cacheprovider --timeout=900 tests 2>&1 | tail -1)
 echo "demo clean rc=$c mutated rc=$m ; suite: $t"
 cd /verif
-VERIF_REPO="$wt" ./check "$prop" --tier "$tier" > /tmp/trymut.check.out 2>&1; rc=$?
+VERIF_EVIDENCE_DIR=/tmp/trymut.evidence VERIF_REPO="$wt" ./check "$prop" --tier "$tier" > /tmp/trymut.check.out 2>&1; rc=$?
 grep -E "^VIOLATION|^FAIL|^DISAGREE|^BROKEN" /tmp/trymut.check.out | cut -c1-400 | head -6
 echo "RESULT check rc=$rc"
